@@ -186,7 +186,7 @@ func (s *Sim) apply(st Step) bool {
 	case "listerfault":
 		return s.stepListerFault(st)
 	case "settle":
-		return s.stepSettle()
+		return s.stepSettle(st.A == 1)
 	case "mktwin":
 		return s.stepMkTwin(st)
 	case "finish":
@@ -758,11 +758,19 @@ const (
 	ownOtherKind
 )
 
+// ownAltVersion (bit 2 of the class): the reference to this set is written with
+// the other version the CRD serves; it names the same object (kind, name, UID).
+const ownAltVersion = 4
+
 func (s *Sim) ownerRefs(class int, set *asv1.StatefulSet, c *SetCfg) []metav1.OwnerReference {
 	switch class % 4 {
 	case ownThis:
 		if set != nil {
-			return []metav1.OwnerReference{ownerRefFor(crdAPIVersion, crdKind, set.Name, set.UID)}
+			ver := crdAPIVersion
+			if class&ownAltVersion != 0 {
+				ver = "apps.pingcap.com/v1alpha1"
+			}
+			return []metav1.OwnerReference{ownerRefFor(ver, crdKind, set.Name, set.UID)}
 		}
 		fallthrough
 	case ownStaleUID:
@@ -811,7 +819,7 @@ func (s *Sim) findOrMakeRevision(set *asv1.StatefulSet, c *SetCfg, tv int, creat
 }
 
 // mkpod: A=set, B=ordinal, C=attribute bits, D=template version, S=explicit name.
-// bits: owner(2) | phase(3)<<2 | terminating<<5 | nomatch<<6 | revmode(2)<<7 | novolumes<<9
+// bits: owner(2) | phase(3)<<2 | terminating<<5 | nomatch<<6 | revmode(2)<<7 | novolumes<<9 | altversion<<10
 func (s *Sim) stepMkPod(st Step) bool {
 	set, c := s.getSet(st.A)
 	if c == nil {
@@ -863,7 +871,7 @@ func (s *Sim) stepMkPod(st Step) bool {
 			break
 		}
 	}
-	p.OwnerReferences = s.ownerRefs(owner, set, c)
+	p.OwnerReferences = s.ownerRefs(owner|((bits>>10)&1)<<2, set, c)
 	created, err := stCreate(s.Store, KPod, NS, p)
 	if err != nil {
 		return false
@@ -1203,8 +1211,9 @@ func (s *Sim) gcRemoveFinalizer(k Kind, o Obj, f string) {
 
 // stepSettle drives the cluster to a fault-free fixed point without judging it
 // (used by scenario prefixes): deliver everything, kubelet makes pods ready,
-// workers run to completion, until nothing changes.
-func (s *Sim) stepSettle() bool {
+// workers run to completion, until nothing changes. With A=1 the kubelet stays
+// out of it (pods the controller creates stay Pending).
+func (s *Sim) stepSettle(noKubelet bool) bool {
 	if s.inc == nil {
 		return false
 	}
@@ -1218,7 +1227,7 @@ func (s *Sim) stepSettle() bool {
 				changed = true
 			}
 		}
-		if s.kubeletSettle(round, stuck) {
+		if !noKubelet && s.kubeletSettle(round, stuck) {
 			changed = true
 		}
 		for _, k := range cacheKinds {
